@@ -119,10 +119,17 @@ func valuationString(m map[string]string) string {
 	}
 	sort.Strings(ks)
 	var sb strings.Builder
-	for i, k := range ks {
-		if i > 0 {
+	n := 0
+	for _, k := range ks {
+		// "this string differs from that constant" carries no information
+		// once the equal ones are shown
+		if m[k] == "different" && strings.HasPrefix(k, "eq(c:") {
+			continue
+		}
+		if n > 0 {
 			sb.WriteString("; ")
 		}
+		n++
 		sb.WriteString(k + "=" + m[k])
 	}
 	return sb.String()
